@@ -286,9 +286,18 @@ class MinFlowDecompCycles(walkmodel.AbstractWalkModelDiGraph):
     def _get_lowerbound_with_min_gen_set(self) -> int:
 
         min_gen_set_start_time = time.perf_counter()
-        all_weights = list(set({self.G.edges[e][self.flow_attr] for e in self.G.edges() if self.flow_attr in self.G.edges[e]}))
-        # Get the source_flow as the sum of the out_flow - in_flow, for all nodes
-        source_flow = self._get_source_flow()
+        # Ignored edges (and, for node-weighted input, the connector edges of the expanded graph) need not be explained by the
+        # walks: they must not constrain the generating set. The total is the flow leaving the source nodes; if one of those
+        # edges is ignored or has no flow value, the total is not determined by the input and this lower bound does not apply.
+        edges_to_ignore_set = set(self.edges_to_ignore)
+        source_flow = 0
+        for v in self.G.nodes():
+            if self.G.in_degree(v) == 0:
+                for _, w, data in self.G.out_edges(v, data=True):
+                    if (v, w) in edges_to_ignore_set or self.flow_attr not in data:
+                        return None
+                    source_flow += data[self.flow_attr]
+        all_weights = list(set({self.G.edges[e][self.flow_attr] for e in self.G.edges() if self.flow_attr in self.G.edges[e] and e not in edges_to_ignore_set}))
         current_lowerbound_k = self._lowerbound_k if self._lowerbound_k is not None else 1
         min_gen_set_lowerbound = None
 
